@@ -48,9 +48,37 @@ def gen_tenths_case(rng):
     return {'f': f, 'gts': [g], 'eqs': [], 'p': 1, 'q': 1, 'ell': 0, 'slacks': rng.random() < 0.5, 'infer': False}
 
 
+def gen_twin_case(rng):
+    """two exponents of f that differ in the 5th decimal only (2.5 and 2.50001: distinct on the 7-decimal grid, relatively very
+    close), with opposite signs: the dual form matches coefficients to moment variables by exponent"""
+    a = F(rng.choice([2, 3, 5]), rng.choice([1, 2]))
+    b = a + F(rng.choice([1, 2]), 10 ** 5)
+    k = rng.choice([3, 4])
+    f = rm.sig_leaf([[a], [b], [F(-1)]], [F(-k), F(k + 1), F(1)])
+    g = rm.sig_leaf([[F(0)], [F(1)]], [F(rng.choice([5, 10])), F(-1)])
+    return {'f': f, 'gts': [g], 'eqs': [], 'p': rng.choice([0, 1]), 'q': 1, 'ell': 0, 'slacks': rng.random() < 0.5, 'infer': False}
+
+
+def plant_tiny(rng, case):
+    """a genuine coefficient of size 2^-45 (3e-14; exact in binary) on a term of its own in f or in a constraint: part of the function"""
+    leaf = rng.choice([case['f']] + case['gts'])
+    n = leaf['n']
+    row = [frac_str(F(rng.randint(3, 4))) for _ in range(n)]
+    if row not in leaf['alpha']:
+        leaf['alpha'].append(row)
+        leaf['c'].append(frac_str(F(rng.choice([1, -1, 3]), 2 ** 45)))
+        case['tiny'] = True
+    return case
+
+
 def gen_case(rng):
-    if rng.random() < 0.2:
+    r0 = rng.random()
+    if r0 < 0.2:
         return gen_tenths_case(rng)
+    if r0 < 0.3:
+        return gen_twin_case(rng)
+    if r0 < 0.4:
+        return plant_tiny(rng, gen_case(rng))
     n = rng.randint(1, 2)
     f = rm.gen_sig(rng, n=n, m=rng.randint(2, 4))
     gts, eqs = [], []
